@@ -19,7 +19,7 @@ transitions plus the offending character when one was read —, does not touch t
 flags end-of-input exactly when everything was read. -/
 theorem C08_resume_position (cfg : Config σ τ ε) (hm : MachineOK cfg) (s : Nat) (st : LState σ)
     (hlast : st.last = none) (hdone : st.done = false) (loc : Loc) (st' : LState σ)
-    (h : scan cfg (dispatch (stateArms cfg.dfa)) s st.iter st = .err loc st') :
+    (h : scan cfg (dispatch (stateArms cfg.dfa cfg.inl)) s st.iter st = .err loc st') :
     st'.iter = st.iter.drop (gotoLen cfg.dfa s st.iter + 1) ∧
     st'.done = decide (gotoLen cfg.dfa s st.iter = st.iter.length) ∧ st'.user = st.user := by
   have hns := dispatchOK_of_machineOK cfg hm
